@@ -509,8 +509,9 @@ class ProgGen:
         n = r.randint(0, 5)
         k = r.choice(['rec', 'counter', 'hof', 'loop', 'shadow', 'quote', 'qq', 'eval', 'variadic', 'setdeep', 'twoclos', 'letseq',
                       'nil1', 'nil2', 'nil3', 'nil4', 'mset', 'mset2', 'msetclo', 'recshadow', 'laterdef', 'evaldef', 'casesym', 'casesym',
-                      'emptylet', 'variadic2', 'variadic3', 'letseq2', 'laterdo', 'letdefine', 'conddef', 'opdefine', 'rebind', 'eq3', 'letdup', 'latelet'])
+                      'emptylet', 'variadic2', 'variadic3', 'bodyname', 'redefnil', 'letseq2', 'laterdo', 'letdefine', 'conddef', 'opdefine', 'rebind', 'eq3', 'letdup', 'latelet'])
         f, g, x, y = self.fresh(), self.fresh(), r.choice(self.names), r.choice(self.names)
+        nil = r.choice([['if', False, 1], ['print', {'s': 'z'}], ['do'], ['while', False, 1]])
         if k == 'casesym':
             # clause keys are data: a key that happens to be the name of a variable in scope (at any distance) still
             # matches the quoted symbol
@@ -581,6 +582,16 @@ class ProgGen:
             v = self.fresh()      # (a name of its own: the rest of the program takes the alphabet's names for integers)
             return [['define', v, ['quote', [9, 9, 9]]], [['fn', v, ['length', v]], 1, 2], ['let', [[y + 'v', 5]], [['fn', y + 'v', ['first', y + 'v']], n, 2]],
                     ['define', g, 7], [['fn', g, ['set', [g, 0]], g], 1], g, ['length', v]]
+        if k == 'bodyname':
+            # every form of a function body is evaluated, also a leading bare name (which additionally names the function)
+            return [['define', x, n], ['define', f, ['fn', [y + 'p'], x, ['+', y + 'p', 1]]], [f, 1],
+                    ['define', g, ['fn', [y + 'p'], 'unbound9', ['+', y + 'p', 1]]], [g, 1]]
+        if k == 'redefnil':
+            # a second define of a name in the same frame is an error whatever value the name holds
+            v = self.fresh()
+            i = self.fresh()
+            return [['define', i, 0], ['while', ['<', i, 2], ['define', v, nil], ['set', [i, ['+', i, 1]]]]] if r.random() < 0.5 else \
+                   [['define', v, nil], ['eval', ['quote', ['define', v, 1]]]]
         if k == 'variadic3':
             # the operands of a call of a variadic function are evaluated in the caller's scope, like those of any other call
             return [['define', x, 100], ['define', f, ['fn', 'argv', ['+', ['first', 'argv'], ['length', 'argv']]]],
@@ -593,7 +604,6 @@ class ProgGen:
         if k == 'twoclos':
             return [['define', f, ['let', [[x, 0]], ['list', ['fn', [], ['set', [x, ['+', x, 1]]]], ['fn', [], x]]]],
                     [['first', f]], [['first', f]], [['second', f]]]
-        nil = r.choice([['if', False, 1], ['print', {'s': 'z'}], ['do'], ['while', False, 1]])
         if k == 'recshadow':
             # a local recursive function whose name shadows an outer binding
             return [['define', f, 5], ['let', [[x + 'z', 1]], ['define', f, ['fn', [x], ['if', ['<', x, 1], 0, ['+', x, [f, ['-', x, 1]]]]]], [f, n]], f]
